@@ -119,6 +119,81 @@ def o_percentile(case):
     return None
 
 
+@oracle
+def o_base_grid(case):
+    """the four geometric base fields on a whole grid: finite everywhere (a NaN sorts FIRST in the descending order and adds its
+    weight to every other cell), equal to their level-set geometry, and a rescaling through them obeys the defining sum.  Towers ON
+    grid nodes and winds along lattice directions of the grid put many cells EXACTLY on the wind axis / its normal."""
+    from bldfm.utils import (get_source_area, source_area_circular, source_area_upwind, source_area_crosswind, source_area_sector)
+    ny, nx, dx, dy = case["ny"], case["nx"], case["dx"], case["dy"]
+    xm, ym = case["meas_pt"]
+    u, v = case["wind"]
+    X, Y = np.meshgrid(np.arange(nx) * dx, np.arange(ny) * dy)
+    rx, ry = X - xm, Y - ym
+    sp = np.hypot(u, v)
+    along = (u * rx + v * ry) / sp                     # signed distance along the wind (positive downwind)
+    cross = (-v * rx + u * ry) / sp
+    ref = dict(circular=-(rx ** 2 + ry ** 2), upwind=along, crosswind=-(cross ** 2),
+               sector=-np.abs(np.arctan2(-cross, -along)))          # angle between r and the UPWIND direction
+    got = dict(circular=source_area_circular(X, Y, (xm, ym)), upwind=source_area_upwind(X, Y, (xm, ym), (u, v)),
+               crosswind=source_area_crosswind(X, Y, (xm, ym), (u, v)), sector=source_area_sector(X, Y, (xm, ym), (u, v)))
+    f = np.array(case["f"], dtype=float).reshape(ny, nx)
+    scale = max(float(np.hypot(nx * dx, ny * dy)), 1.0)
+    away = (rx ** 2 + ry ** 2) > 0                     # the direction of the tower's own cell is undefined
+    for kind in ("circular", "upwind", "crosswind", "sector"):
+        g = np.asarray(got[kind], dtype=float)
+        if g.shape != (ny, nx):
+            return fail("C20/base-shape", "base field %s does not have the grid's shape" % kind, None, [ny, nx], list(g.shape), 0)
+        if not np.all(np.isfinite(g)):
+            j, i = [int(k[0]) for k in np.where(~np.isfinite(g))]
+            return fail("C20/base-nonfinite", "base field %s is not finite at cell (%d, %d) (%d cells in all): a NaN is ranked first by the "
+                        "descending sort and its weight is added to every other cell" % (kind, j, i, int(np.sum(~np.isfinite(g)))), None, "finite", float(g[j, i]), 0)
+        tol = 1e-9 * (scale ** 2 if kind in ("circular", "crosswind") else scale if kind == "upwind" else 1.0)
+        d = np.abs(g - ref[kind])
+        if kind == "sector":
+            d = np.where(away, np.minimum(d, np.abs(d - 2 * np.pi)), 0.0)
+            # a cell exactly downwind has angle pi from either side
+        if not np.all(d <= tol):
+            j, i = [int(k) for k in np.unravel_index(int(np.argmax(d)), d.shape)]
+            return fail("C20/base-geometry", "base field %s is not its level-set geometry at cell (%d, %d)" % (kind, j, i), None,
+                        float(ref[kind][j, i]), float(g[j, i]), tol)
+        out = np.asarray(get_source_area(f, g), dtype=float)
+        ff, gg, oo = f.ravel(), g.ravel(), out.ravel()
+        total = ff.sum()
+        tl = 1e-12 * max(total, 1.0)
+        for c in range(len(ff)):
+            lo = ff[gg > gg[c]].sum()
+            hi = ff[gg >= gg[c]].sum() - ff[c]
+            if not (lo - tl <= oo[c] <= hi + tl):
+                return fail("C20/defining-sum", "rescaled value through the %s base field is not the sum of f over the cells whose g is larger" % kind,
+                            None, [float(lo), float(hi)], float(oo[c]), tl)
+    return None
+
+
+def gen_base_grid(rng):
+    ny, nx = int(rng.integers(3, 12)), int(rng.integers(3, 12))
+    dx = float(rng.choice([1.0, 6.25, 20.0, 100.0 / 64, float(rng.uniform(0.5, 30))]))
+    dy = dx if rng.random() < 0.5 else float(rng.choice([1.0, 4.0, 6.25, float(rng.uniform(0.5, 30))]))
+    if rng.random() < 0.7:
+        xm, ym = float(int(rng.integers(0, nx)) * dx), float(int(rng.integers(0, ny)) * dy)      # exactly on a grid node
+    else:
+        xm, ym = float(rng.uniform(0, nx * dx)), float(rng.uniform(0, ny * dy))
+    k = rng.random()
+    if k < 0.6:
+        a, b = 0, 0
+        while a == 0 and b == 0:
+            a, b = int(rng.integers(-3, 4)), int(rng.integers(-3, 4))
+        sfac = float(rng.choice([1.0, 3.0, 0.5, 2.5, float(rng.uniform(0.1, 9))]))
+        u, v = sfac * a * dx, sfac * b * dy                 # along a lattice direction of the grid
+        if rng.random() < 0.4:
+            u, v = sfac * a, sfac * b                       # ... or of the unit lattice (45 degrees on square cells)
+    else:
+        u, v = float(rng.normal() * 4), float(rng.normal() * 4)
+    if u == 0.0 and v == 0.0:
+        u = 1.0
+    return dict(ny=ny, nx=nx, dx=dx, dy=dy, meas_pt=[xm, ym], wind=[float(u), float(v)], f=gen_field(rng, ny * nx, str(rng.choice(["random", "sparse", "smooth"]))).tolist())
+
+
 def run(rng, tier, deep):
     from bldfm.utils import (get_source_area, source_area_circular, source_area_upwind, source_area_crosswind,
                              source_area_sector, source_area_contribution)
@@ -181,7 +256,13 @@ def run(rng, tier, deep):
             run_oracle(st, o_percentile, dict(f=f.tolist(), shape=shape, dx=float(rng.uniform(0.5, 10)), dy=float(rng.uniform(0.5, 10)),
                                               coords=str(rng.choice(["2d", "1d"])) if not three_d else "3d", ps=ps, level=int(rng.integers(0, 2)) if three_d else 0,
                                               lam=float(rng.uniform(0.1, 10))))
-    return finish(st, "non-negative fields (random, sparse, with ties and zeros, smooth), base fields random / f itself / integer-typed / the built-in "
+    for _ in range(budget(tier, deep, 120, 1500)):
+        run_oracle(st, o_base_grid, gen_base_grid(rng))
+    # the reported instance: square cells, a 45-degree wind, the tower on a node
+    run_oracle(st, o_base_grid, dict(ny=9, nx=9, dx=100.0 / 64, dy=100.0 / 64, meas_pt=[4 * 100.0 / 64, 4 * 100.0 / 64], wind=[-3.0, -3.0],
+                                     f=gen_field(rng, 81, "smooth").tolist()))
+    return finish(st, "whole-grid base fields with the tower on / off a grid node and winds along lattice directions (finite, level-set geometry, defining sum through each); "
+                  "non-negative fields (random, sparse, with ties and zeros, smooth), base fields random / f itself / integer-typed / the built-in "
                   "geometric ones, 2-D and 3-D, C / Fortran / transposed-view / strided memory layouts of f and g, 1-D and 2-D coordinates, fractions in (0,1]; correspondence (1e-12) of get_source_area with numpy's own "
                   "argsort permutation handed to the model, of extract_percentile_contour and of the four geometric base functions; oracle: O(n^2) "
                   "brute-force defining sums with the tie freedom, antitone, increasing map, common permutation, dtype, fewest-cells / monotone / scaling", deep, 1e-12)
